@@ -5,6 +5,8 @@ use std::sync::{Arc, Mutex};
 
 /// In-memory file whose bytes can be snapshotted between API calls without
 /// flushing and without consuming the CompoundFile that owns a clone of it.
+pub const MEMFILE_LIMIT: u64 = 128 << 20;
+
 #[derive(Clone)]
 pub struct MemFile {
     data: Arc<Mutex<Vec<u8>>>,
@@ -44,6 +46,12 @@ impl Read for MemFile {
 impl Write for MemFile {
     fn write(&mut self, buf: &[u8]) -> io::Result<usize> {
         let mut data = self.data.lock().unwrap();
+        // a backing store has a finite size: a write far beyond anything the
+        // harness ever stores is refused (a defect that computes a wild file
+        // offset must surface as an I/O error, not exhaust the machine)
+        if self.pos.saturating_add(buf.len() as u64) > MEMFILE_LIMIT {
+            return Err(io::Error::new(io::ErrorKind::Other, "memfile: size limit exceeded"));
+        }
         let start = self.pos as usize;
         if start > data.len() {
             data.resize(start, 0);
@@ -119,6 +127,8 @@ pub struct FaultState {
     pub last_interrupted: bool,
     /// faults actually delivered: (call index, kind, tag)
     pub delivered: Vec<(u64, CallKind, u32)>,
+    /// file offset at which each delivered fault struck (same order as `delivered`)
+    pub delivered_pos: Vec<u64>,
 }
 
 #[derive(Clone)]
@@ -138,6 +148,7 @@ impl FaultCtl {
         s.record = record;
         s.log.clear();
         s.delivered.clear();
+        s.delivered_pos.clear();
     }
     pub fn disarm(&self) {
         self.0.lock().unwrap().armed = false;
@@ -154,6 +165,9 @@ impl FaultCtl {
     pub fn delivered(&self) -> Vec<(u64, CallKind, u32)> {
         self.0.lock().unwrap().delivered.clone()
     }
+    pub fn delivered_pos(&self) -> Vec<u64> {
+        self.0.lock().unwrap().delivered_pos.clone()
+    }
     pub fn set_chunk(&self, c: Option<usize>) {
         self.0.lock().unwrap().chunk = c;
     }
@@ -161,7 +175,7 @@ impl FaultCtl {
         self.0.lock().unwrap().interrupt_every = n;
     }
     /// Decides the fate of one underlying call.
-    fn decide(&self, kind: CallKind) -> (Option<Fault>, Option<usize>) {
+    fn decide(&self, kind: CallKind, pos: u64) -> (Option<Fault>, Option<usize>) {
         let mut s = self.0.lock().unwrap();
         let chunk = s.chunk;
         if !s.armed {
@@ -192,6 +206,7 @@ impl FaultCtl {
             let tag = s.tag;
             if !matches!(f, Fault::Short(_)) || kind == CallKind::Read || kind == CallKind::Write {
                 s.delivered.push((idx, kind, tag));
+                s.delivered_pos.push(pos);
             }
         }
         (fault, chunk)
@@ -218,9 +233,19 @@ fn interrupted() -> io::Error {
     io::Error::new(io::ErrorKind::Interrupted, "injected interrupt")
 }
 
-impl<F: Read> Read for FaultFile<F> {
+/// Backends that can tell their current offset without I/O.
+pub trait HasPos {
+    fn position(&self) -> u64;
+}
+impl HasPos for MemFile {
+    fn position(&self) -> u64 {
+        self.pos
+    }
+}
+
+impl<F: Read + HasPos> Read for FaultFile<F> {
     fn read(&mut self, buf: &mut [u8]) -> io::Result<usize> {
-        let (fault, chunk) = self.ctl.decide(CallKind::Read);
+        let (fault, chunk) = self.ctl.decide(CallKind::Read, self.inner.position());
         let mut limit = buf.len();
         if let Some(c) = chunk {
             limit = limit.min(c.max(1));
@@ -235,9 +260,9 @@ impl<F: Read> Read for FaultFile<F> {
     }
 }
 
-impl<F: Write> Write for FaultFile<F> {
+impl<F: Write + HasPos> Write for FaultFile<F> {
     fn write(&mut self, buf: &[u8]) -> io::Result<usize> {
-        let (fault, chunk) = self.ctl.decide(CallKind::Write);
+        let (fault, chunk) = self.ctl.decide(CallKind::Write, self.inner.position());
         let mut limit = buf.len();
         if let Some(c) = chunk {
             limit = limit.min(c.max(1));
@@ -251,7 +276,7 @@ impl<F: Write> Write for FaultFile<F> {
         self.inner.write(&buf[..limit])
     }
     fn flush(&mut self) -> io::Result<()> {
-        let (fault, _) = self.ctl.decide(CallKind::Flush);
+        let (fault, _) = self.ctl.decide(CallKind::Flush, self.inner.position());
         match fault {
             Some(Fault::Fail) => Err(fail()),
             _ => self.inner.flush(),
@@ -259,9 +284,15 @@ impl<F: Write> Write for FaultFile<F> {
     }
 }
 
-impl<F: Seek> Seek for FaultFile<F> {
+impl<F: Seek + HasPos> Seek for FaultFile<F> {
     fn seek(&mut self, pos: SeekFrom) -> io::Result<u64> {
-        let (fault, _) = self.ctl.decide(CallKind::Seek);
+        // the site of a seek is its target
+        let target = match pos {
+            SeekFrom::Start(p) => p,
+            SeekFrom::Current(d) => (self.inner.position() as i128 + d as i128).max(0) as u64,
+            SeekFrom::End(_) => u64::MAX,
+        };
+        let (fault, _) = self.ctl.decide(CallKind::Seek, target);
         match fault {
             Some(Fault::Fail) => Err(fail()),
             _ => self.inner.seek(pos),
